@@ -65,6 +65,10 @@ def traces(rng, n):
             ev["exc"] = type(ex).__name__
         out.append([ev])
         del subs
+    # declared signatures of the kit classes vs the published standards (spec/KitStandards.tla)
+    for spec, c in classes.kit_classes():
+        if classes.signature_typed(c):
+            out.append([{"ev": "KitSignature", "name": c.__name__, "up": c.signature[0], "down": c.signature[1]}])
     return out
 
 
